@@ -294,6 +294,20 @@ theorem maxValue_mono {a b : Nat} (h : a ≤ b) : maxValue a ≤ maxValue b := b
     have : 2 ^ (a - 1) ≤ 2 ^ (b - 1) := Nat.pow_le_pow_right (by decide) (by omega)
     omega
 
+theorem lmax_le_llmax_of_sane (P : Plat) (h : sane P = true) : lmaxOf P ≤ llmaxOf P := by
+  simp only [sane, Bool.and_eq_true, decide_eq_true_eq] at h
+  exact maxValue_mono (Nat.mul_le_mul_left _ h.1.1.1.2)
+
+/-- a literal that has a type fits the widest candidate of its list -/
+theorem litSpec_some_fits (imax lmax llmax value longs : Nat) (base : Base) (us : Bool) (t : CT)
+    (hm1 : imax ≤ lmax) (hm2 : lmax ≤ llmax) (hl : longs ≤ 2)
+    (h : litSpec imax lmax llmax base us longs value = some t) :
+    value ≤ 2 * llmax + 1 ∧ (base = .dec → us = false → value ≤ llmax) := by
+  have hl' : longs = 0 ∨ longs = 1 ∨ longs = 2 := by omega
+  rcases hl' with rfl | rfl | rfl <;> cases base <;> cases us <;>
+    simp [litSpec, firstFit] at h ⊢ <;>
+    (repeat' (split at h)) <;> first | omega | (simp at h)
+
 theorem imax_le_lmax_of_sane (P : Plat) (h : sane P = true) : imaxOf P ≤ lmaxOf P := by
   simp only [sane, Bool.and_eq_true, decide_eq_true_eq] at h
   exact maxValue_mono (Nat.mul_le_mul_left _ h.1.1.1.1.2)
